@@ -156,6 +156,8 @@ pub enum InputSel {
   Taproot { sel: u32, min_conf: u32 },
   /// k-th unspent zero-value output, else Utxo(k)
   ZeroValue(u32),
+  /// k-th unspent pay-to-taproot output at most `max_conf` blocks deep, else Utxo(k)
+  TaprootShallow { sel: u32, max_conf: u32 },
 }
 
 #[derive(Clone, Debug, PartialEq, Eq, Serialize, Deserialize)]
@@ -232,6 +234,8 @@ pub enum RuneIdRef {
   /// the rune etched by this very transaction (0:0)
   Zero,
   Raw(u64, u32),
+  /// k-th rune carried by the inputs of this transaction (model), else Known(k)
+  Held(u32),
 }
 
 #[derive(Clone, Debug, PartialEq, Eq, Serialize, Deserialize)]
